@@ -674,3 +674,297 @@ Definition ok_fallback (case trace : list N) : bool :=
       end
   | _, _ => false
   end.
+
+(* ------------------------------------------------------------------ wire-level proofs *)
+(* The oracle accepts the model on EVERY input (unbounded): the trace parser reads back what the
+   trace encoder wrote, canonical indices resolve back to the names they stand for, and the
+   per-report checks, the row checks and the coverage check all hold for the model's trace. *)
+
+(* ---- canonical indices resolve back *)
+Lemma canon_from_first : forall (pre : list name) (n : name) (t : list name) k,
+  ~ In n pre -> canon_from (pre ++ n :: t) n k = k + N.of_nat (length pre).
+Proof.
+  induction pre as [|x pre IH]; intros n t k H; cbn [app canon_from length].
+  - rewrite neqb_refl. lia.
+  - rewrite neqb_neq by (intros ->; apply H; left; reflexivity).
+    rewrite IH by (intros Hin; apply H; right; exact Hin). lia.
+Qed.
+
+Lemma in_split_first : forall (n : name) (l : list name),
+  In n l -> exists pre t, l = pre ++ n :: t /\ ~ In n pre.
+Proof.
+  induction l as [|x l IH]; intros H; [destruct H|].
+  destruct (name_eqb n x) eqn:E.
+  - apply neqb_eq in E. subst. exists [], l. split; [reflexivity | intros []].
+  - destruct H as [->|H]; [rewrite neqb_refl in E; discriminate|].
+    destruct (IH H) as [pre [t [-> Hn]]]. exists (x :: pre), t. split; [reflexivity|].
+    intros [->|Hin]; [rewrite neqb_refl in E; discriminate | exact (Hn Hin)].
+Qed.
+
+Lemma nth_canon : forall pool n, In n pool -> fb_nth pool (canon pool n) = Some n.
+Proof.
+  intros pool n H. destruct (in_split_first _ _ H) as [pre [t [-> Hn]]].
+  unfold fb_nth, canon. rewrite canon_from_first by exact Hn.
+  rewrite N.add_0_l, Nat2N.id. rewrite nth_error_app2 by lia.
+  replace (length pre - length pre)%nat with 0%nat by lia. reflexivity.
+Qed.
+
+Lemma fb_nth_In : forall pool i n, fb_nth pool i = Some n -> In n pool.
+Proof. intros pool i n H. unfold fb_nth in H. eapply nth_error_In. exact H. Qed.
+
+Lemma omap_In : forall {A B} (f : A -> option B) l r y,
+  omap f l = Some r -> In y r -> exists x, In x l /\ f x = Some y.
+Proof.
+  intros A B f. induction l as [|a l IH]; simpl; intros r y H Hin.
+  - inversion H. subst. destruct Hin.
+  - destruct (f a) as [b|] eqn:Ea; [|discriminate].
+    destruct (omap f l) as [r'|] eqn:Er; [|discriminate].
+    inversion H. subst. destruct Hin as [->|Hin].
+    + exists a. split; [left; reflexivity | exact Ea].
+    + destruct (IH _ _ eq_refl Hin) as [x [Hx Hf]]. exists x. split; [right; exact Hx | exact Hf].
+Qed.
+
+(* every name of a decoded case lives in the pool *)
+Definition cfg_in_pool (pool : list name) (cfg : config) : Prop :=
+  forall m fs, In (m, fs) cfg -> In m pool /\ forall f, In f fs -> In f pool.
+
+Lemma fb_decode_pool : forall l c, fb_decode l = Some c ->
+  cfg_in_pool (f_pool c) (f_cfg c) /\ forall n, In n (f_reps c) -> In n (f_pool c).
+Proof.
+  intros l c H. unfold fb_decode in H.
+  match type of H with context [pall ?p ?x] => destruct (pall p x) as [[[pool es] rs]|] end;
+    [|discriminate].
+  destruct (forallb ascii pool); [|discriminate].
+  destruct (omap (fb_res_entry pool) es) as [cfg|] eqn:Ec; [|discriminate].
+  destruct (omap (fb_nth pool) rs) as [reps|] eqn:Er; [|discriminate].
+  destruct (nodupb (mains cfg)); [|discriminate].
+  inversion H. subst. cbn [f_pool f_cfg f_reps]. split.
+  - intros m fs Hin. destruct (omap_In _ _ _ _ Ec Hin) as [[mi fis] [_ He]].
+    unfold fb_res_entry in He. cbn [fst snd] in He.
+    destruct (fb_nth pool mi) as [m'|] eqn:Em; [|discriminate].
+    destruct (omap (fb_nth pool) fis) as [fs'|] eqn:Ef; [|discriminate].
+    inversion He. subst. split; [eapply fb_nth_In; exact Em|].
+    intros f Hf. destruct (omap_In _ _ _ _ Ef Hf) as [fi [_ Hfi]]. eapply fb_nth_In. exact Hfi.
+  - intros n Hin. destruct (omap_In _ _ _ _ Er Hin) as [i [_ Hi]]. eapply fb_nth_In. exact Hi.
+Qed.
+
+Lemma mains_in_pool : forall pool cfg m, cfg_in_pool pool cfg -> In m (mains cfg) -> In m pool.
+Proof.
+  intros pool cfg m H Hm. apply In_mains in Hm. destruct Hm as [fs He]. exact (proj1 (H _ _ He)).
+Qed.
+
+Lemma offered_in_pool : forall pool cfg n, cfg_in_pool pool cfg -> In n (offered cfg) -> In n pool.
+Proof.
+  intros pool cfg n H Hn. unfold offered in Hn. apply in_app_or in Hn. destruct Hn as [Hm|Hf].
+  - eapply mains_in_pool; eauto.
+  - apply In_fallbacks in Hf. destruct Hf as [m [fs [He Hf]]]. exact (proj2 (H _ _ He) _ Hf).
+Qed.
+
+(* ---- encode / parse round trip: report entries *)
+Definition wrep_of (pool : list name) (r : option (name * option name)) : wrep :=
+  match r with
+  | None => None
+  | Some (m, Some f) => Some (canon pool m, Some (canon pool f))
+  | Some (m, None) => Some (canon pool m, None)
+  end.
+
+Lemma p_wrep_enc : forall pool r rest,
+  p_wrep (enc_rep pool r ++ rest) = Some (wrep_of pool r, rest).
+Proof. intros pool [[m [f|]]|] rest; reflexivity. Qed.
+
+Lemma prep_wrep_enc : forall pool (g : name -> option (name * option name)) reps rest,
+  prep (length reps) p_wrep (flat_map (fun n => enc_rep pool (g n)) reps ++ rest)
+  = Some (map (fun n => wrep_of pool (g n)) reps, rest).
+Proof.
+  intros pool g. induction reps as [|r reps IH]; intros rest; [reflexivity|].
+  cbn [length prep flat_map map]. unfold pbind at 1. rewrite <- app_assoc, p_wrep_enc.
+  unfold pbind at 1. rewrite IH. reflexivity.
+Qed.
+
+Lemma dec_rep_report : forall pool cfg n,
+  cfg_in_pool pool cfg -> In n pool ->
+  dec_rep pool (wrep_of pool (report cfg n)) = Some (report cfg n).
+Proof.
+  intros pool cfg n Hc Hn. destruct (report cfg n) as [[m fb]|] eqn:E; [|reflexivity].
+  destruct (report_shape_l _ _ _ _ E) as [Hm Hs].
+  assert (Hmp : In m pool) by (eapply mains_in_pool; eauto).
+  destruct fb as [f|]; cbn [wrep_of dec_rep].
+  - destruct Hs as [-> _]. rewrite (nth_canon _ _ Hmp), (nth_canon _ _ Hn). reflexivity.
+  - rewrite (nth_canon _ _ Hmp). reflexivity.
+Qed.
+
+(* ---- encode / parse round trip: table rows *)
+Definition enc_row (r : N * N * N) : list N := [fst (fst r); snd (fst r); snd r].
+
+Lemma p_row_enc : forall r rest, p_row (enc_row r ++ rest) = Some (r, rest).
+Proof. intros [[a b] c] rest. reflexivity. Qed.
+
+Lemma prep_fuel_rows : forall rows fuel rest,
+  (length rows <= length fuel)%nat ->
+  prep_fuel fuel (N.of_nat (length rows)) p_row (flat_map enc_row rows ++ rest) = Some (rows, rest).
+Proof.
+  induction rows as [|r rows IH]; intros fuel rest H.
+  - destruct fuel; reflexivity.
+  - destruct fuel as [|x fuel]; [simpl in H; lia|].
+    cbn [length flat_map]. rewrite Nat2N.inj_succ. cbn [prep_fuel].
+    destruct (N.eqb_spec (N.succ (N.of_nat (length rows))) 0) as [E|_]; [lia|].
+    rewrite <- app_assoc, p_row_enc.
+    replace (N.succ (N.of_nat (length rows)) - 1) with (N.of_nat (length rows)) by lia.
+    rewrite IH; [reflexivity | simpl in H; lia].
+Qed.
+
+Lemma enc_rows_length : forall rows, (length rows <= length (flat_map enc_row rows))%nat.
+Proof. induction rows as [|r rows IH]; simpl; lia. Qed.
+
+Lemma parse_body : forall pool (g : name -> option (name * option name)) reps rows,
+  pall (let* ws := prep (length reps) p_wrep in
+        let* rows := plist p_row in pret (ws, rows))
+       (flat_map (fun n => enc_rep pool (g n)) reps
+          ++ N.of_nat (length rows) :: flat_map enc_row rows)
+  = Some (map (fun n => wrep_of pool (g n)) reps, rows).
+Proof.
+  intros pool g reps rows. unfold pall. unfold pbind at 1. rewrite prep_wrep_enc.
+  unfold pbind, plist, pret.
+  assert (P := prep_fuel_rows rows (N.of_nat (length rows) :: flat_map enc_row rows) []).
+  rewrite app_nil_r in P. rewrite P; [reflexivity|].
+  pose proof (enc_rows_length rows). simpl. lia.
+Qed.
+
+(* ---- the rows of the model as triples *)
+Definition row_main (cfg : config) (n : name) : name :=
+  match resolve cfg n with Some m => m | None => n end.
+
+Definition row_of (pool : list name) (cfg : config) (n : name) : N * N * N :=
+  (canon pool n, canon pool (row_main cfg n), b2n (ka_of cfg (row_main cfg n) true)).
+
+Fixpoint offered_rows3 (pool : list name) (cfg : config) (rest : list name) (i : N)
+  : list (N * N * N) :=
+  match rest with
+  | [] => []
+  | n :: t =>
+      (if (canon pool n =? i) && mem n (offered cfg) then
+         [(i, canon pool (row_main cfg n), b2n (ka_of cfg (row_main cfg n) true))]
+       else []) ++ offered_rows3 pool cfg t (i + 1)
+  end.
+
+Lemma offered_rows_eq : forall pool cfg rest i,
+  offered_rows pool cfg rest i = map enc_row (offered_rows3 pool cfg rest i).
+Proof.
+  intros pool cfg. induction rest as [|n t IH]; intros i; [reflexivity|].
+  cbn [offered_rows offered_rows3]. rewrite map_app, IH.
+  destruct ((canon pool n =? i) && mem n (offered cfg)); reflexivity.
+Qed.
+
+Lemma rows3_In : forall pool cfg rest i row,
+  In row (offered_rows3 pool cfg rest i) ->
+  exists n, In n rest /\ mem n (offered cfg) = true /\ row = row_of pool cfg n.
+Proof.
+  intros pool cfg. induction rest as [|n t IH]; intros i row H; [destruct H|].
+  cbn [offered_rows3] in H. apply in_app_or in H. destruct H as [H|H].
+  - destruct (canon pool n =? i) eqn:Ei; [|destruct H].
+    destruct (mem n (offered cfg)) eqn:Em; [|destruct H].
+    cbn [andb] in H. destruct H as [<-|[]]. apply N.eqb_eq in Ei. subst i.
+    exists n. split; [left; reflexivity|]. split; [exact Em | reflexivity].
+  - destruct (IH _ _ H) as [n' [Hin Hr]]. exists n'. split; [right; exact Hin | exact Hr].
+Qed.
+
+Lemma rows3_cover : forall pool cfg rest pre n,
+  pool = pre ++ rest -> ~ In n pre -> In n rest -> mem n (offered cfg) = true ->
+  In (row_of pool cfg n) (offered_rows3 pool cfg rest (N.of_nat (length pre))).
+Proof.
+  intros pool cfg. induction rest as [|x t IH]; intros pre n Hp Hpre Hin Hm; [destruct Hin|].
+  cbn [offered_rows3]. apply in_or_app. destruct (name_eqb n x) eqn:E.
+  - left. apply neqb_eq in E. subst x.
+    assert (Hc : canon pool n = N.of_nat (length pre)).
+    { unfold canon. rewrite Hp. rewrite canon_from_first by exact Hpre. lia. }
+    unfold row_of. rewrite Hc, N.eqb_refl, Hm. left. reflexivity.
+  - right. destruct Hin as [->|Hin]; [rewrite neqb_refl in E; discriminate|].
+    replace (N.of_nat (length pre) + 1) with (N.of_nat (length (pre ++ [x])))
+      by (rewrite app_length; simpl; lia).
+    apply IH; [rewrite <- app_assoc; exact Hp | | exact Hin | exact Hm].
+    intros Hx. apply in_app_or in Hx. destruct Hx as [Hx|[->|[]]]; [exact (Hpre Hx)|].
+    rewrite neqb_refl in E. discriminate.
+Qed.
+
+(* ---- the checks of the oracle on the model's rows *)
+Lemma offered_main : forall cfg n, In n (offered cfg) ->
+  exists fb, report cfg n = Some (row_main cfg n, fb) /\ In (row_main cfg n) (mains cfg).
+Proof.
+  intros cfg n H. destruct (offered_supported_l _ _ H) as [m [fb [Hr Hm]]].
+  unfold row_main. rewrite resolve_report, Hr. simpl. exists fb. split; [reflexivity | exact Hm].
+Qed.
+
+Lemma report_row_main : forall cfg n m fb, report cfg n = Some (m, fb) -> row_main cfg n = m.
+Proof. intros cfg n m fb H. unfold row_main. rewrite resolve_report, H. reflexivity. Qed.
+
+Lemma row_names_row_of : forall pool cfg n,
+  cfg_in_pool pool cfg -> In n (offered cfg) ->
+  row_names pool (row_of pool cfg n) = Some (n, row_main cfg n).
+Proof.
+  intros pool cfg n Hc Hn. destruct (offered_main _ _ Hn) as [fb [_ Hm]].
+  unfold row_names, row_of. cbn [fst snd].
+  rewrite (nth_canon pool n) by (eapply offered_in_pool; eauto).
+  rewrite (nth_canon pool (row_main cfg n)) by (eapply mains_in_pool; eauto). reflexivity.
+Qed.
+
+Lemma ok_row_row_of : forall pool cfg n,
+  cfg_in_pool pool cfg -> In n (offered cfg) -> ok_row pool cfg (row_of pool cfg n) = true.
+Proof.
+  intros pool cfg n Hc Hn. unfold ok_row. rewrite (row_names_row_of _ _ _ Hc Hn).
+  destruct (offered_main _ _ Hn) as [fb [Hr Hm]].
+  assert (Ho : mem n (offered cfg) = true) by (apply mem_In; exact Hn). rewrite Ho.
+  assert (Hd : declares cfg (row_main cfg n) n
+               || (name_eqb (row_main cfg n) n && mem n (mains cfg)) = true).
+  { destruct (report_shape_l _ _ _ _ Hr) as [_ Hs]. destruct fb as [f|].
+    - destruct Hs as [_ Hd]. apply declares_In in Hd. rewrite Hd. reflexivity.
+    - destruct Hs as [He _]. rewrite He in *. rewrite neqb_refl.
+      apply mem_In in Hm. rewrite Hm. apply orb_true_r. }
+  rewrite Hd. unfold row_of at 1. cbn [snd andb]. rewrite N.eqb_refl. cbn [andb].
+  destruct (wf_cfgb cfg) eqn:W; [|reflexivity].
+  apply wf_cfgb_iff in W. rewrite (spec_report cfg n W), Hr. simpl. apply neqb_refl.
+Qed.
+
+Lemma same_table_rows : forall pool cfg rest i n m fb,
+  cfg_in_pool pool cfg -> report cfg n = Some (m, fb) ->
+  same_table pool (offered_rows3 pool cfg rest i) n m = true.
+Proof.
+  intros pool cfg rest i n m fb Hc Hr. unfold same_table. apply forallb_forall.
+  intros row Hin. destruct (rows3_In _ _ _ _ _ Hin) as [n' [_ [Hm ->]]].
+  apply mem_In in Hm. rewrite (row_names_row_of _ _ _ Hc Hm).
+  destruct (name_eqb n' n) eqn:E; [|reflexivity].
+  apply neqb_eq in E. subst n'. rewrite (report_row_main _ _ _ _ Hr). apply neqb_refl.
+Qed.
+
+Lemma ok_reps_model : forall pool cfg rest i reps,
+  cfg_in_pool pool cfg -> (forall n, In n reps -> In n pool) ->
+  ok_reps pool cfg (offered_rows3 pool cfg rest i) reps
+          (map (fun n => wrep_of pool (report cfg n)) reps) = true.
+Proof.
+  intros pool cfg rest i reps Hc. induction reps as [|n reps IH]; intros Hr; [reflexivity|].
+  cbn [map ok_reps]. rewrite (dec_rep_report _ _ _ Hc (Hr n (or_introl eq_refl))).
+  rewrite C03_ok_rep_accepts_model. rewrite IH by (intros x Hx; apply Hr; right; exact Hx).
+  destruct (report cfg n) as [[m fb]|] eqn:E; [|reflexivity].
+  rewrite (same_table_rows _ _ _ _ _ _ _ Hc E). reflexivity.
+Qed.
+
+(* ---- the wire-level theorem *)
+Theorem ok_fallback_accepts_model : forall case : list N,
+  ok_fallback case (run_fallback case) = true.
+Proof.
+  intros case. unfold ok_fallback, run_fallback.
+  destruct (fb_decode case) as [c|] eqn:D; [|reflexivity].
+  destruct (fb_decode_pool _ _ D) as [Hc Hr].
+  destruct c as [pool cfg reps]. cbn [f_pool f_cfg f_reps] in *.
+  cbv zeta. rewrite offered_rows_eq, map_length, <- flat_map_concat_map.
+  cbv beta iota. rewrite parse_body.
+  rewrite (ok_reps_model _ _ _ _ _ Hc Hr). cbn [andb].
+  apply andb_true_iff. split.
+  - apply forallb_forall. intros row Hin.
+    destruct (rows3_In _ _ _ _ _ Hin) as [n [_ [Hm ->]]].
+    apply ok_row_row_of; [exact Hc | apply mem_In; exact Hm].
+  - apply forallb_forall. intros n Hn. apply existsb_exists.
+    exists (row_of pool cfg n). split.
+    + apply (rows3_cover pool cfg pool [] n); [reflexivity | intros [] | | apply mem_In; exact Hn].
+      eapply offered_in_pool; eauto.
+    + rewrite (row_names_row_of _ _ _ Hc Hn). apply neqb_refl.
+Qed.
